@@ -273,6 +273,43 @@ func (cx *Ctx) InstallStdlib2() {
 	in["strings.TrimPrefix"] = affix(false, true)
 	in["strings.HasSuffix"] = affix(true, false)
 	in["strings.HasPrefix"] = affix(false, false)
+	// reflect.DeepEqual on pointers to / values of structs of strings and scalars
+	var deepEq func(fx *FnExec, st *State, a, b Value) *Term
+	deepEq = func(fx *FnExec, st *State, a, b Value) *Term {
+		switch x := a.(type) {
+		case IfaceV:
+			y, ok := b.(IfaceV)
+			if !ok || x.V == nil || y.V == nil || x.Dyn == nil || y.Dyn == nil || !types.Identical(x.Dyn, y.Dyn) {
+				panic(Unsupported{"reflect.DeepEqual on interfaces of unknown or different dynamic type"})
+			}
+			return deepEq(fx, st, x.V, y.V)
+		case PtrV:
+			y := b.(PtrV)
+			if x.Obj == nil || y.Obj == nil {
+				return And(x.Nil, y.Nil)
+			}
+			if x.Obj == y.Obj && pathEq(x.Path, y.Path) {
+				return True
+			}
+			inner := deepEq(fx, st, fx.Load(st, x, nil), fx.Load(st, y, nil))
+			return Or(And(x.Nil, y.Nil), And(Not(x.Nil), Not(y.Nil), inner))
+		case StructV:
+			y := b.(StructV)
+			var cs []*Term
+			for i := range x.F {
+				cs = append(cs, deepEq(fx, st, x.F[i], y.F[i]))
+			}
+			return And(cs...)
+		case StrV:
+			return fx.strEq(x, b.(StrV))
+		case Scalar:
+			return Eq(x.T, b.(Scalar).T)
+		}
+		panic(Unsupported{fmt.Sprintf("reflect.DeepEqual on %T", a)})
+	}
+	in["reflect.DeepEqual"] = func(fx *FnExec, fr *Frame, call *ssa.CallCommon, args []Value, st *State, site string, k func(*State, Value)) {
+		k(st, Scalar{deepEq(fx, st, args[0], args[1])})
+	}
 	in["strings.Index"] = idx(false)
 	in["strings.LastIndex"] = idx(true)
 	in["strings.Split"] = func(fx *FnExec, fr *Frame, call *ssa.CallCommon, args []Value, st *State, site string, k func(*State, Value)) {
